@@ -287,6 +287,13 @@ func (r *runner) exec(v *Vector, ci int, c *Case) {
 		r.sum.Skipped["noagehook:"+c.Entry]++
 		return
 	}
+	// rate limiters and "log once" guards of the library hide code paths from a long running worker:
+	// re-arm them so that every case executes the guarded path (STP log line every 5 minutes, DISCOVER storm
+	// every 20 s; "every 4th RA" is handled by calling the handler four times; the mDNS cache by fresh handlers)
+	resetSTP()
+	if v.W == "dhcp" {
+		resetStorm()
+	}
 	fmt.Fprintf(r.cur, "%-10d%-10d", v.ID, ci)
 	r.cur.Seek(0, 0)
 	r.curRes.Store(res)
@@ -467,6 +474,8 @@ func runOne() {
 		return
 	}
 	prepare(c)
+	resetSTP()
+	resetStorm()
 	r.curRes.Store(res)
 	atomic.StoreInt64(&r.started, time.Now().UnixNano())
 	func() {
